@@ -47,7 +47,14 @@ impl Distribution for Uniform {
     type Output = f64;
     /// Samples from the given Uniform distribution.
     fn sample(&self) -> f64 {
-        (self.upper - self.lower) * alea::f64() + self.lower
+        let width = self.upper - self.lower;
+        let u = alea::f64();
+        if width.is_finite() {
+            width * u + self.lower
+        } else {
+            // the width of a finite interval can overflow: interpolate without forming it
+            self.lower * (1. - u) + self.upper * u
+        }
     }
 }
 
